@@ -1,8 +1,9 @@
 package checks
 
 import (
-	"os"
 	"fmt"
+	"os"
+	"regexp"
 	"sort"
 	"strings"
 
@@ -30,8 +31,8 @@ type Scenario struct {
 	Decls     []*space.Decl
 	ConvLines []string
 	Methods   []*ScMethod
-	Test      string // name of the method executed at run time
-	FuncsSrc  string // Go source of custom functions placed in package conv
+	Test      string            // name of the method executed at run time
+	FuncsSrc  string            // Go source of custom functions placed in package conv
 	Funcs     map[string]string // registered name → Go expression (from package main)
 	Conv      *model.Converter
 	PropGen   string // property that owns generation-level disagreements
@@ -44,7 +45,7 @@ type Scenario struct {
 	SrcIdx int
 	CtxIdx []int
 	TgtIdx int
-	Global   []string          // settings given on the command line (-g)
+	Global []string // settings given on the command line (-g)
 	// Variables: the converter is a goverter:variables block (function variable named VarName) instead of an interface
 	Variables bool
 	NoRuntime bool // judged at generation level only
@@ -52,14 +53,18 @@ type Scenario struct {
 	Forced       bool
 	ForcedReject string // reason; "" with Forced=true means the builder vouches for success and Judge provides the plan
 	// RawSource replaces the generated interface source entirely (comment layouts, unusual declarations)
-	RawSource string
+	RawSource      string
 	FnExprOverride string
 	AssertOverride string
-	NeedConv bool              // pass the converter instance to the interpreter
-	Files    map[string]string // extra files of the scratch module (other packages)
-	Imports  []string          // extra package keys imported by conv.go
+	NeedConv       bool              // pass the converter instance to the interpreter
+	Files          map[string]string // extra files of the scratch module (other packages)
+	Imports        []string          // extra package keys imported by conv.go
 	// SeparateOutputOnly: the builder's verdict depends on the generated code living outside package conv
 	SeparateOutputOnly bool
+	// BlankImports: package keys main.go must import for their init functions (variables assigned from another package)
+	BlankImports []string
+	// OutFile: module-relative path of the generated file when it is not the default of the format
+	OutFile string
 }
 
 func (sc *Scenario) ifaceSource() string {
@@ -327,9 +332,18 @@ func scenarioGroup(w *pool.W, scs []*Scenario, tier string, runtime bool) error 
 		}
 		meta := desc
 		meta["shape"] = fmt.Sprint(sc.Desc["class"])
-		meta["need_pkgs"] = needPkgsFor(res, sc.Conv.OutPkg)
+		need := needPkgsFor(res, sc.Conv.OutPkg)
+		if sc.Variables && sc.Conv.OutPkg != "conv" {
+			// the init functions assign the variables declared in package conv from another package
+			if p := space.ModulePath + "/conv"; !containsStr(need, p) {
+				need = append(need, p)
+			}
+		}
+		meta["need_pkgs"] = need
 		meta["optional_pkgs"] = optionalPkgs(res)
-		if sc.Variables {
+		if sc.OutFile != "" {
+			meta["out_file"] = sc.OutFile
+		} else if sc.Variables {
 			meta["out_file"] = "conv/conv.gen.go"
 		} else {
 			meta["out_file"] = "conv/generated/generated.go"
@@ -350,7 +364,7 @@ func scenarioGroup(w *pool.W, scs []*Scenario, tier string, runtime bool) error 
 			FnExpr: fnExprOf(sc, tm),
 			Assert: assertOf(sc),
 			Plan:   res.Plan, Mode: mode, Funcs: sc.Funcs, Meta: meta, SrcIdx: sc.SrcIdx, CtxIdx: sc.CtxIdx, TgtIdx: sc.TgtIdx,
-			Conv: convExpr(sc), Imports: sc.Imports,
+			Conv: convExpr(sc), Imports: sc.Imports, BlankImports: sc.BlankImports,
 		})
 		for n, c := range sc.Files {
 			if batch.Files == nil {
@@ -475,15 +489,19 @@ func reformat(sc *Scenario, format string) *Scenario {
 		}
 	}
 	// scenarios that mention their own converter interface (converter-typed parameters) only exist in struct format
-	if strings.Contains(sc.FuncsSrc, sc.ID) {
+	self := regexp.MustCompile(`(^|[^.\w])` + regexp.QuoteMeta(sc.ID) + `\b`) // unqualified use of the interface name
+	if self.MatchString(sc.FuncsSrc) {
 		return nil
 	}
 	for _, m := range sc.Methods {
-		if strings.Contains(m.Params, sc.ID) || strings.Contains(m.Result, sc.ID) {
+		if self.MatchString(m.Params) || self.MatchString(m.Result) {
 			return nil
 		}
 	}
 	if format == "variables" && sc.SeparateOutputOnly {
+		return nil
+	}
+	if format == "variables-moved" && (sc.OutFile != "" || hasOutputLine(sc.ConvLines)) {
 		return nil
 	}
 	n := *sc
@@ -497,7 +515,7 @@ func reformat(sc *Scenario, format string) *Scenario {
 	conv.Methods = nil
 	n.Conv = &conv
 	n.Methods = nil
-	newID := sc.ID + map[string]string{"function": "F", "variables": "V"}[format]
+	newID := sc.ID + map[string]string{"function": "F", "variables": "V", "variables-moved": "M"}[format]
 	ren := func(name string) string { return name + "X" + newID } // carries the case id for compile-error attribution
 	byOld := map[*model.Method]*model.Method{}
 	for _, m := range sc.Conv.Methods {
@@ -530,8 +548,25 @@ func reformat(sc *Scenario, format string) *Scenario {
 		n.ID = sc.ID + "V"
 		n.Variables = true
 		conv.OutPkg = "conv"
+	case "variables-moved":
+		// the variables stay in package conv, the generated init functions live in another package
+		n.ID = sc.ID + "M"
+		n.Variables = true
+		n.ConvLines = append([]string{"output:file ./genv/v_gen.go", "output:package vx/conv/genv"}, n.ConvLines...)
+		conv.OutPkg = "conv/genv"
+		n.BlankImports = []string{"conv/genv"}
+		n.OutFile = "conv/genv/v_gen.go"
 	}
 	return &n
+}
+
+func hasOutputLine(lines []string) bool {
+	for _, l := range lines {
+		if strings.HasPrefix(l, "output:") {
+			return true
+		}
+	}
+	return false
 }
 
 func reformatAll(scs []*Scenario, format string) []*Scenario {
